@@ -71,6 +71,9 @@ pub enum Op {
     /// `git reset --soft <earlier commit>`: HEAD (and the branch) move back to an ancestor; index
     /// and work tree stay as they are
     ResetSoft(u16),
+    /// (dir, which): create (or edit) a file whose name begins or ends with a blank
+    /// (`notes.txt `, ` draft.md`, `tab\tend\t`)
+    BlankEdgeName(u16, u16),
 }
 
 pub const BIG_SIZES: [usize; 9] = [
@@ -367,6 +370,16 @@ impl Hist {
             Op::PackRefs => {
                 self.env.git_ok(&["pack-refs", "--all"])?;
                 "pack-refs".into()
+            }
+            Op::BlankEdgeName(d, k) => {
+                let dir = DIRS[pick(*d, DIRS.len())];
+                let name = ["notes.txt ", " draft.md", "both ends ", "tab-end\t"][pick(*k, 4)];
+                let p = if dir.is_empty() { name.to_string() } else { format!("{}/{}", dir, name) };
+                let c = self.fresh(&p);
+                self.env.write_file(&p, &c);
+                self.work.insert(p.clone(), c);
+                self.odd_name = true;
+                format!("edit {:?}", p)
             }
             Op::ResetSoft(k) => {
                 if self.commits.len() < 2 {
